@@ -245,7 +245,7 @@ func (x *Exec) valueInstr(st *State, b *ssa.BasicBlock, i int, ins ssa.Value, k 
 		if !ins.Blocking {
 			evn = "chpoll"
 		}
-		x.event(st, Event{Name: evn, Pos: ins.Pos(), Args: chans})
+		x.event(st, Event{Name: evn, Pos: ins.Pos(), Args: chans, Res: []SVal{mkInt(idx)}})
 		elems := []SVal{mkInt(idx), mkBool(q(x.D.fresh("recvok", "Bool")))}
 		tup := ins.Type().(*types.Tuple)
 		for j := 2; j < tup.Len(); j++ {
